@@ -428,6 +428,8 @@ def supported(md, cfgname):
     """is the definition inside what the configuration's library accepts (compiles)"""
     base = cfgname.split(":")[0]
     for path, m in walk(md["root"]):
+        if len(m["rows"]) > 20 or len(m["irows"]) > 20 or any(len(st["sirows"]) > 20 for st in m["states"]):
+            return False      # the harness writes tables as mpl::vector (20 rows)
         if base == "back11" and m["irows"]:
             return False      # back11: a machine's own internal_transition_table does not compile (Event& vs const Event)
         if base == "back11" and any((isinstance(st["kind"], list) and st["kind"][0] == "exitpt") or st["kind"] == "entrypt" for st in m["states"]):
